@@ -386,6 +386,7 @@ func Main(args []string) error {
 	seed := fs.Int64("seed", 1, "seed")
 	nseed := fs.Int("n", 20, "number of seeded scenarios at realistic timescales")
 	par := fs.Int("par", 6, "parallel scenario workers")
+	fix := fs.Bool("fix", false, "the repository under test carries proposed_fixes/X03-vod0-*.diff (header constant for the transcription)")
 	_ = fs.Parse(args)
 	if *work == "" || *gen == "" {
 		return fmt.Errorf("-work and -gen required")
@@ -461,7 +462,7 @@ func Main(args []string) error {
 		rt := a.Video
 		cn := counters{st: map[int]int{}, distinct: map[string]bool{}}
 		emit(tr.E{"ev": "hdr", "sc": idx, "src": s.src, "asset": a.Name, "N": rt.N, "dur": rt.Dur, "vod0": rt.Vod0, "TS": rt.TS,
-			"loopMS": a.LoopMS, "tsbd": c.TSBD, "ato": c.Ato, "snr": c.SNR, "ast": c.AST})
+			"loopMS": a.LoopMS, "tsbd": c.TSBD, "ato": c.Ato, "snr": c.SNR, "ast": c.AST, "fix": *fix})
 		for _, rc := range s.cases {
 			e := tr.E{"ev": "seg", "by": rc.kind, "q": rc.q, "now": rc.now, "hasp": rc.pred != nil}
 			if rc.pred != nil {
